@@ -66,7 +66,7 @@ def run(ctx, focus):
         flags = spec.get('flags') or {'skip_brute': rng.random() < 0.3, 'skip_case': rng.random() < 0.3}
         try:
             r = corr_pq.run_case(d, flags, rng, ncuts=ncuts, all_cuts=(focus == 'C08' and not ctx.quick and src == 'exhaustive'),
-                                 max_nodes=ctx.scale(400, 1000))
+                                 max_nodes=ctx.scale(400, 1000), spec=spec)
         except Exception as e:  # the implementation raised: that is itself a finding for C01/C02
             violations.append({'property': focus, 'kind': 'implementation-raised', 'error': repr(e)[:300],
                                'witness': {'spec': spec, 'flags': flags}})
@@ -107,6 +107,30 @@ def run(ctx, focus):
                     break
     else:
         disagreements.append({'stream': 'pq', 'detail': 'driver does not build'})
+    cli_runs = 0
+    if focus == 'C08':
+        # the whole resume path of the program: a session started with option flags writes its save file; `--load` (flags taken
+        # from the save file) must continue the same run - from the initial save that is the whole stream again
+        import gen_omen
+        for i in range(ctx.scale(1, 4)):
+            om = gen_omen.gen_omen(rng, ngram=2, nletters=2, maxlen_extra=1)
+            spec = gen_rulesets.gen_ruleset(rng, omen=om, mode='dyadic', markov=True, max_structs=2, max_pos=2, max_groups=3, max_vals=2)
+            # both flags must matter for this ruleset: a word variable with two masks of different probability, and a Markov structure
+            spec['terminals'].setdefault('A2', [['ab', '0.5'], ['cd', '0.25']])
+            spec['terminals']['C2'] = [['LL', '0.5'], ['UL', '0.25']]
+            if not any(st == 'A2' for st, _ in spec['grammar']):
+                spec['grammar'].append(['A2', '0.0625'])
+            name = f"c08cli{i}"
+            common.install_ruleset(spec, name)
+            for fl in ([], ['--skip_brute'], ['--all_lower'], ['--skip_brute', '--all_lower']):
+                sess = f"c08s{i}{len(fl)}{(fl or ['--n'])[0][2]}"
+                o1, e1, rc1 = common.run_cli('pcfg_guesser.py', ['-r', name, '-s', sess] + fl, stdin='pipe-open')
+                o2, e2, rc2 = common.run_cli('pcfg_guesser.py', ['-s', sess, '--load'], stdin='pipe-open')
+                cli_runs += 2
+                if o1 != o2:
+                    violations.append({'property': 'C08', 'kind': 'resume-cli-differs', 'flags': fl, 'first_run_lines': o1.count(b'\n'),
+                                       'resumed_lines': o2.count(b'\n'), 'witness': {'spec': spec, 'cli': fl}})
+        cases += cli_runs
     return {
         'evaluations': cases, 'distinct_nontrivial': nontrivial, 'traces': cases + cuts,
         'rule': 'rulesets from gen_rulesets (dyadic / float / tiny-magnitude probabilities, repeated variable types, '
@@ -123,8 +147,13 @@ def run(ctx, focus):
 
 def replay(ctx, payload, focus):
     w = payload.get('violation', {}).get('witness') or payload.get('witness')
+    if w and 'cli' in w:
+        common.install_ruleset(w['spec'], 'replay08')
+        o1, _, _ = common.run_cli('pcfg_guesser.py', ['-r', 'replay08', '-s', 'replay08'] + w['cli'], stdin='pipe-open')
+        o2, _, _ = common.run_cli('pcfg_guesser.py', ['-s', 'replay08', '--load'], stdin='pipe-open')
+        return [] if o1 == o2 else [{'kind': 'resume-cli-differs'}]
     if not w:
         return []
     d = common.write_ruleset(os.path.join(common.scratch_dir('rules'), 'replay'), w['spec'])
-    r = corr_pq.run_case(d, w['flags'], ctx.rng, all_cuts=True, max_nodes=100000)
+    r = corr_pq.run_case(d, w['flags'], ctx.rng, all_cuts=True, max_nodes=100000, spec=w['spec'])
     return [v for v in r['violations'] if v['property'] == focus]
